@@ -21,7 +21,7 @@ pub fn spec() -> (Spec, Oracles) {
             short: false,
             invalid_utf8_seqs: true,
         },
-        Oracles { consistent: false, alloc: false, utf8: true },
+        Oracles { deep: false, panics: false, consistent: false, alloc: false, utf8: true },
     )
 }
 
